@@ -9,13 +9,16 @@ from vf.ref import step as RS                        # noqa: E402
 REG_POOL = [0, 1, 2, 3, 7, 8, 12, 13, 14, 15]
 
 
-def gen_word(table, row, rng, cond=None, tries=60):
-    """a word of `row` (pattern bits fixed, fields random with register/corner bias, should-be bits honoured)"""
+def gen_word(table, row, rng, cond=None, tries=60, fixed=None):
+    """a word of `row` (pattern bits fixed, fields random with register/corner bias, should-be bits honoured);
+    fixed = {field letter: value} pins fields"""
     for _ in range(tries):
         w = row.value | row.sb_value
         for ch, bits_ in row.fields.items():
             k = len(bits_)
-            if ch == 'c' and row.has_cond:
+            if fixed is not None and ch in fixed:
+                v = fixed[ch]
+            elif ch == 'c' and row.has_cond:
                 v = (cond if cond is not None else (14 if rng.random() < 0.6 else rng.randrange(15)))
             elif k == 4 and ch in 'ndmstauhl':
                 v = rng.choice(REG_POOL) if rng.random() < 0.7 else rng.randrange(16)
